@@ -84,6 +84,23 @@ def read_name(buf, off):
     return info
 
 
+def inplace_end(buf, off):
+    """offset just after the name as it appears in place (after its first pointer, or after
+    its root label), or None when the in-place part is malformed / runs off the buffer"""
+    pos = off
+    n = len(buf)
+    while pos < n:
+        c = buf[pos]
+        if c == 0:
+            return pos + 1
+        if c >= 192:
+            return pos + 2 if pos + 2 <= n else None
+        if c >= 64:
+            return None
+        pos += 1 + c
+    return None
+
+
 def encode_name(labels):
     out = bytearray()
     for l in labels:
